@@ -32,6 +32,13 @@ func runC14(c *Ctx) {
 	child := m.Func("internal/crashmonitor", "Child")
 
 	c14MinContract(c, m, newProver())
+	c14SentinelLine(c, m)
+	// the helper of the name encoding that splits a function symbol (reached with the empty symbol
+	// when no PC resolves)
+	for _, f := range []*ssa.Function{m.Func("internal/counter", "cutLastDot")} {
+		boundsObligationsT(r, m, "C14.totality", f, nil)
+		loopObligations(r, m, "C14.totality", f, nil)
+	}
 	// ---- sinks in Child --------------------------------------------------------
 	nSink := 0
 	for _, cs := range callsIn(child, "var:internal/crashmonitor.incrementCounter") {
@@ -601,4 +608,28 @@ func returnsCallTo(fn *ssa.Function, callee string) bool {
 		n++
 	}
 	return n >= 1
+}
+
+// c14SentinelLine: the parent writes the sentinel as a LINE of its own ("sentinel %x" + newline)
+// and the child scans exactly that format. Without the newline the runtime's first line of
+// the crash ("fatal error: …") is glued to the sentinel, and %x swallows its leading hex digits:
+// the relocation — and with it the counter name — then depends on the crash message.
+func c14SentinelLine(c *Ctx, m *Module) {
+	r := c.R
+	ws := m.Func("internal/crashmonitor", "writeSentinel")
+	psp := m.Func("internal/crashmonitor", "parseStackPCs")
+	wfmt, rfmt := "?", "?"
+	for _, cs := range callsIn(ws, "fmt.Fprintf") {
+		if k, ok := constOf(argsOf(cs)[1]); ok {
+			wfmt = k
+		}
+	}
+	for _, cs := range callsIn(psp, "fmt.Sscanf") {
+		if k, ok := constOf(argsOf(cs)[1]); ok {
+			rfmt = k
+		}
+	}
+	r.Check("C14.relocation", "sentinel is written as a line of its own in the format the child scans", m.Pos(ws.Pos()),
+		wfmt != "?" && wfmt == rfmt+"\n" && strings.HasSuffix(rfmt, "%x"),
+		fmt.Sprintf("writer format %q, reader format %q: the writer's must be the reader's followed by a newline", wfmt, rfmt))
 }
